@@ -85,6 +85,17 @@ fn run_nested_if_armed(tok: i64) {
     }
 }
 
+/// the parents of the items a scope iterator yields must be the scope itself, shifted by one (an item handed out by the
+/// iterator looks at the tree through the same filter as the iterator does)
+fn scope_items_consistent<'a, const L: u8, C: LookupSpan<'a>>(scope: tracing_subscriber::registry::Scope<'a, C>) -> bool {
+    let (mut toks, mut parents) = (vec![], vec![]);
+    for a in scope {
+        toks.push(tok_of::<L, C>(&a));
+        parents.push(a.parent().map(|p| tok_of::<L, C>(&p)).unwrap_or(0));
+    }
+    toks.iter().skip(1).copied().chain(std::iter::once(0)).collect::<Vec<i64>>() == parents
+}
+
 /// leaf -> root by repeated `parent()` (must agree with `scope()`)
 fn walk_up<'a, const L: u8, C: LookupSpan<'a>>(s: tracing_subscriber::registry::SpanRef<'a, C>) -> Vec<i64> {
     let mut v = vec![tok_of::<L, C>(&s)];
@@ -117,7 +128,10 @@ where
             None => (false, -1),
         };
         let (scope, pw): (Vec<i64>, Vec<i64>) = match ctx.span(id) {
-            Some(s) => (s.scope().map(|a| tok_of::<L, C>(&a)).collect(), walk_up::<L, C>(s)),
+            Some(s) => {
+                let ok = scope_items_consistent::<L, C>(s.scope());
+                (s.scope().map(|a| tok_of::<L, C>(&a)).collect(), if ok { walk_up::<L, C>(s) } else { vec![-3] })
+            }
             None => (vec![-1], vec![-2]),
         };
         self.log.lock().unwrap().push(json!({"vt": vh_common::rec::vt(), "reg": self.reg, "layer": L, "call": "new_span", "tok": k, "id": id.into_u64(), "clean": clean, "par": par, "scope": scope, "pw": pw}));
@@ -139,7 +153,8 @@ where
             Some(s) => {
                 let scope: Vec<i64> = s.scope().map(|a| tok_of::<L, C>(&a)).collect();
                 let tok = tok_of::<L, C>(&s);
-                let pw = walk_up::<L, C>(s);
+                let ok = scope_items_consistent::<L, C>(s.scope());
+                let pw = if ok { walk_up::<L, C>(s) } else { vec![-3] };
                 json!({"vt": vt, "reg": self.reg, "layer": L, "call": "close", "tok": tok, "readable": true, "scope": scope, "pw": pw})
             }
             None => json!({"vt": vt, "reg": self.reg, "layer": L, "call": "close", "tok": -1, "id": id.into_u64(), "readable": false, "scope": [], "pw": []}),
@@ -152,7 +167,8 @@ where
     }
     fn on_event(&self, e: &Event<'_>, ctx: Context<'_, C>) {
         let chain: Vec<i64> = ctx.event_scope(e).map(|sc| sc.map(|a| tok_of::<L, C>(&a)).collect()).unwrap_or_default();
-        let pw: Vec<i64> = ctx.event_span(e).map(|s| walk_up::<L, C>(s)).unwrap_or_default();
+        let ok = ctx.event_scope(e).map(|sc| scope_items_consistent::<L, C>(sc)).unwrap_or(true);
+        let pw: Vec<i64> = if ok { ctx.event_span(e).map(|s| walk_up::<L, C>(s)).unwrap_or_default() } else { vec![-3] };
         let parent = ctx.event_span(e).map(|s| tok_of::<L, C>(&s)).unwrap_or(0);
         let current = ctx.lookup_current().map(|s| tok_of::<L, C>(&s)).unwrap_or(0);
         self.log.lock().unwrap().push(json!({"vt": vh_common::rec::vt(), "reg": self.reg, "layer": L, "call": "event", "parent": parent, "chain": chain, "pw": pw, "current": current}));
